@@ -14,9 +14,10 @@
 (* clock advanced by ticks only), so accepting every line of a history is  *)
 (* accepting the history.                                                  *)
 (*                                                                         *)
-(* An observation (info / status / query) with ran = TRUE was followed by  *)
-(* the worker it started, run to completion in its own goroutine: the line *)
-(* is the composition of the observation and the worker step.              *)
+(* An observation (info / status / query) with ran = TRUE was made with    *)
+(* the real worker goroutine free to run: if the observation started the   *)
+(* worker, the worker has run to completion and the line is the            *)
+(* composition of the observation and the worker step.                     *)
 (***************************************************************************)
 EXTENDS Integers, Sequences, FiniteSets, TLC, Json
 
@@ -45,10 +46,10 @@ U(u) == IF u = Horizon THEN P!Forever ELSE u
 
 Dur(L) == IF L.dk = "big" THEN P!Big ELSE IF L.dk = "huge" THEN P!Huge ELSE L.d
 
-\* After an observation that left the spec in `mid`: either nothing more, or
-\* (ran) the worker this observation started has run.
+\* After an observation that left the spec in `mid`: nothing more, or (ran)
+\* the worker has run if this observation started it.
 Follows(pre, mid, post, ran, now) ==
-    IF ran THEN ~pre.pend /\ mid.pend /\ post \in P!WorkerOutcomes(mid, now)
+    IF ran /\ ~pre.pend /\ mid.pend THEN post \in P!WorkerOutcomes(mid, now)
     ELSE post = mid
 
 LineOk(i) ==
